@@ -36,7 +36,7 @@ CHECKS = {
     technique="TLC model checking (MC_Protocol) + model-generated behaviours replayed on the real parser + TLC trace validation (ParserTrace.tla ShapeOK)",
     design="5 C14"),
  "C05": dict(
-    text="Loader.tla gives the loader as one step per consumed instruction (error table, section placement from the hand-transcribed SpecFacts!LoaderClass) AND a declarative, positional definition of well-bracketedness following the sentences of C05; MC_Loader checks them equivalent (accept iff well-bracketed, error of the FIRST offending instruction, post-conditions) on every class sequence up to length 5 (6). Every sequence is replayed on a real Loader both directly (per-instruction outcome and index) and through load_words; every one of the 787 opcodes is additionally fed in the three contexts (module level / function / block); random loadable and faulty modules are added. LoaderTrace validates outcome, error variant, index and the loaded module section by section.",
+    text="Loader.tla gives the loader as one step per consumed instruction (error table, section placement from the hand-transcribed SpecFacts!LoaderClass) AND a declarative, positional definition of well-bracketedness following the sentences of C05; MC_Loader checks them equivalent (accept iff well-bracketed, error of the FIRST offending instruction, post-conditions) on every class sequence up to length 5 (6). Every sequence is replayed on a real Loader both directly (per-instruction outcome and index) and through load_words; every one of the 787 opcodes is additionally fed in the three contexts (module level / function / block); random loadable and faulty modules are added. LoaderTrace validates outcome, error variant, index and the loaded module section by section. Thorough tier: Apalache discharges an inductive invariant of the bracket automaton for input of any length (spec/apalache/LoaderInv.tla; extra evidence, never the verdict).",
     note="Vendor opcodes and context-dependent ones (OpExtInst, OpUntypedVariableKHR) are 'don't care' (the property excludes them): the specification then admits each treatment. Error variants are observed through the Debug name of the boxed loader error.",
     technique="TLC model checking (MC_Loader: operational vs declarative bracket grammar) + replay of all model sequences on the real Loader + TLC trace validation (LoaderTrace.tla)",
     design="5 C05"),
@@ -56,7 +56,7 @@ CHECKS = {
     technique="TLC model checking (MC_Builder) + model-generated histories replayed on the real Builder + TLC trace validation (BuilderTrace.tla)",
     design="5 C12"),
  "C13": dict(
-    text="BuilderTrace tracks the set of values the hidden id counter may have (a failing call may burn one id) and checks: fresh ids are the counter value, strictly increasing, never repeated; new()/default() start at 1, new_from_module at the bound; module() writes a bound equal to the counter and above every allocated id; an implicit type request returns the first earlier declaration with the same opcode and operands and adds nothing, otherwise appends exactly one declaration with a fresh id; explicit requests always append. Driven by the MC_Builder histories (type keys x implicit/explicit, constants, failing calls, three constructors), by every generated type method, and by random histories.",
+    text="BuilderTrace tracks the set of values the hidden id counter may have (a failing call may burn one id) and checks: fresh ids are the counter value, strictly increasing, never repeated; new()/default() start at 1, new_from_module at the bound; module() writes a bound equal to the counter and above every allocated id; an implicit type request returns the first earlier declaration with the same opcode and operands and adds nothing, otherwise appends exactly one declaration with a fresh id; explicit requests always append. Driven by the MC_Builder histories (type keys x implicit/explicit, constants, failing calls, three constructors), by every generated type method, and by random histories. Thorough tier: Apalache discharges an inductive invariant of the id counter for histories of any length (spec/apalache/BuilderIds.tla; extra evidence).",
     note="'same opcode and operands' is decided on flattened operand words.",
     technique="TLC model checking (MC_Builder: BoundAbove, IdsDistinct, NoDuplicateTypes, FreshIncreasing) + TLC trace validation (BuilderTrace.tla id bits)",
     design="5 C13"),
